@@ -103,6 +103,10 @@ class Checker:
             if d:
                 ctx.violation("header:%s:v%s:%s%s" % (field_of(d), case["exph"]["version"], case["exph"]["kind"], tagp),
                               "unit header field %s: expected %s, reported %s" % (d, case["exph"], o["hdr"]), case, o["hdr"])
+            if "alloffs" in case and o.get("alloffs") != case["alloffs"]:
+                ctx.violation("header:unit-offsets:%s%s" % (case["exph"]["section"], tagp),
+                              "section offsets of the units of the %s section: encoded at %s, reported %s" %
+                              (case["exph"]["section"], case["alloffs"], o.get("alloffs")), case, o.get("alloffs"))
             if o.get("from_offset_same") is False:
                 ctx.violation("header:from_offset%s" % tagp, "header_from_offset(unit offset) differs from units()", case, o["hdr"])
             if as_set(case["gets"]) != as_set(o["gets"]):
